@@ -470,6 +470,88 @@ def pool_map(modname, fname, shard_args_list, procs=None, mem_gb=6):
     return merged
 
 
+# --------------------------------------------------------------------------- shards under a wall-clock watchdog
+
+_HB = {"fd": None}
+
+
+def heartbeat(text):
+    """Called by a shard before each case: records (time, case text) in the shard's heartbeat file so that the parent can
+    tell which case a worker is stuck in.  A loop inside C code (e.g. a regular expression) produces no trace events,
+    cannot be interrupted by a signal handler and holds the GIL, so only another process can see it."""
+    fd = _HB["fd"]
+    if fd is None:
+        return
+    data = (repr(time.time()) + '\n' + text[:4000]).encode('utf-8', 'replace')
+    os.pwrite(fd, data + b'\0' * max(0, 64 - len(data)), 0)
+    os.ftruncate(fd, max(len(data), 64))
+
+
+def _wd_entry(modname, fname, shard_args, mem_gb, hb_path, out_path):
+    import pickle
+    _HB["fd"] = os.open(hb_path, os.O_RDWR | os.O_CREAT, 0o600)
+    res = _shard_entry((modname, fname, shard_args, mem_gb))
+    with open(out_path + '.tmp', 'wb') as f:
+        pickle.dump(res, f)
+    os.replace(out_path + '.tmp', out_path)
+
+
+def watchdog_map(modname, fname, shard_args_list, on_hang, procs=16, mem_gb=6, stale_s=90.0):
+    """Like pool_map, but every job is its own process with a heartbeat file; a job whose current case is older than
+    stale_s is killed and on_hang(stats, text) is called with the text it was stuck in (the rest of that job is lost and
+    counted in extra['jobs_cut_short'])."""
+    import multiprocessing as mp
+    import pickle
+    import shutil
+    import tempfile
+    ctx = mp.get_context("spawn")
+    root = tempfile.mkdtemp(prefix='vk_wd_')
+    merged = Stats()
+    pending = list(enumerate(shard_args_list))
+    running = {}
+    try:
+        while pending or running:
+            while pending and len(running) < procs:
+                i, a = pending.pop(0)
+                hb, out = os.path.join(root, f'hb{i}'), os.path.join(root, f'out{i}')
+                pr = ctx.Process(target=_wd_entry, args=(modname, fname, a, mem_gb, hb, out), daemon=True)
+                pr.start()
+                running[i] = (pr, hb, out, time.time())
+            time.sleep(0.5)
+            for i in list(running):
+                pr, hb, out, t0 = running[i]
+                if not pr.is_alive():
+                    pr.join()
+                    del running[i]
+                    if not os.path.exists(out):
+                        raise HarnessError(f"a worker process died ({modname}.{fname}, job {i}, exit {pr.exitcode})")
+                    kind, val = pickle.load(open(out, 'rb'))
+                    if kind == "err":
+                        raise HarnessError("shard failed: " + val)
+                    merged.merge(val)
+                    continue
+                try:
+                    raw = open(hb, 'rb').read().rstrip(b'\0').decode('utf-8', 'replace')
+                    ts, _, text = raw.partition('\n')
+                    age = time.time() - float(ts)
+                except (OSError, ValueError):
+                    continue            # no case started yet (imports)
+                if age > stale_s:
+                    pr.kill()
+                    pr.join()
+                    del running[i]
+                    merged.extra['jobs_cut_short'] = merged.extra.get('jobs_cut_short', 0) + 1
+                    on_hang(merged, text)
+    finally:
+        for pr, *_ in running.values():
+            try:
+                pr.kill()
+            except Exception:
+                pass
+        shutil.rmtree(root, ignore_errors=True)
+    return merged
+
+
 # --------------------------------------------------------------------------- misc helpers
 
 def limit_memory(gb=6):
